@@ -27,8 +27,10 @@ struct Spec {
     msb: u64,
     bit_form: bool,
     addr: i64,
-    /// index of the StructReg this entry belongs to (None: a MaskedIntReg node)
+    /// index of the sibling group this field belongs to (None: a stand-alone MaskedIntReg node)
     group: Option<usize>,
+    /// sibling group realised as separate MaskedIntReg nodes sharing one address (else: StructReg entries)
+    shared_masked: bool,
 }
 
 impl Spec {
@@ -62,7 +64,7 @@ fn xml_of(specs: &[Spec]) -> String {
         let e = if s.be { "BigEndian" } else { "LittleEndian" };
         let sg = if s.signed { "Signed" } else { "Unsigned" };
         match s.group {
-            None => {
+            None | Some(_) if s.group.is_none() || s.shared_masked => {
                 x += &format!(
                     "<MaskedIntReg Name=\"{}\"><Address>{}</Address><Length>{}</Length><AccessMode>RW</AccessMode><pPort>Device</pPort>{}{}",
                     s.name, s.addr, s.len, if i % 2 == 0 { "<Cachable>NoCache</Cachable>" } else { "" }, mask_xml(s));
@@ -75,6 +77,7 @@ fn xml_of(specs: &[Spec]) -> String {
                 x += "</MaskedIntReg>\n";
                 i += 1;
             }
+            None => unreachable!(),
             Some(g) => {
                 x += &format!(
                     "<StructReg Comment=\"g{g}\"><Address>{}</Address><Length>{}</Length><AccessMode>RW</AccessMode><pPort>Device</pPort><Cachable>NoCache</Cachable><Endianess>{e}</Endianess>\n",
@@ -213,7 +216,7 @@ impl Runner {
     fn sig(s: &Spec, kind: &str) -> Value {
         let (l, m) = s.norm().map(|(l, m)| (l as i64, m as i64)).unwrap_or((-1, -1));
         json!({"kind": kind, "len": s.len, "signed": s.signed, "be": s.be, "width": if l >= 0 { m - l + 1 } else { -1 },
-               "msb_norm": m, "lsb_is_zero": l == 0, "struct_entry": s.group.is_some()})
+               "msb_norm": m, "lsb_is_zero": l == 0, "struct_entry": s.group.is_some() && !s.shared_masked})
     }
 
     /// one op on `dev`; oracle + model request; returns output
@@ -245,7 +248,9 @@ impl Runner {
         self.rep.count(&format!("src/{src}"));
         self.rep.count(&format!("out/{}", match &out { Out::Err(e) => format!("err-{e}"), Out::Panic => "panic".into(), _ => "ok".into() }));
         self.rep.count(&format!("len/{}", s.len));
-        if s.group.is_some() {
+        if s.shared_masked {
+            self.rep.count("node/masked-sharing-address");
+        } else if s.group.is_some() {
             self.rep.count("node/struct-entry");
         } else if s.bit_form {
             self.rep.count("node/masked-bit");
@@ -262,7 +267,7 @@ impl Runner {
             let reg_after = &dev.img[PAD..PAD + len];
             let old = word_of(reg_before, s.be);
             let (emin, emax) = exp_range(wd, s.signed);
-            let replay = json!({"spec": {"len": s.len, "be": s.be, "signed": s.signed, "lsb": s.lsb.to_string(), "msb": s.msb.to_string(), "bit_form": s.bit_form, "addr": s.addr.to_string(), "struct_entry": s.group.is_some()},
+            let replay = json!({"spec": {"len": s.len, "be": s.be, "signed": s.signed, "lsb": s.lsb.to_string(), "msb": s.msb.to_string(), "bit_form": s.bit_form, "addr": s.addr.to_string(), "struct_entry": s.group.is_some() && !s.shared_masked},
                                 "op": opname, "arg": arg, "img": hex(&before.img)});
             let mut bad: Option<(&str, String)> = None;
             if before.img[..PAD] != dev.img[..PAD] || before.img[PAD + len..] != dev.img[PAD + len..] || !dev.outside.is_empty() {
@@ -346,7 +351,7 @@ impl Runner {
             self.rep.violation(
                 Self::sig(&s, "readback"),
                 &format!("set_value({v}) accepted on {}, value() = {:?}", hex(reg), o2),
-                json!({"spec": {"len": s.len, "be": s.be, "signed": s.signed, "lsb": s.lsb.to_string(), "msb": s.msb.to_string(), "bit_form": s.bit_form, "addr": s.addr.to_string(), "struct_entry": s.group.is_some()},
+                json!({"spec": {"len": s.len, "be": s.be, "signed": s.signed, "lsb": s.lsb.to_string(), "msb": s.msb.to_string(), "bit_form": s.bit_form, "addr": s.addr.to_string(), "struct_entry": s.group.is_some() && !s.shared_masked},
                        "op": "roundtrip", "arg": v.to_string(), "img": hex(&dev.img)}),
             );
         }
@@ -367,6 +372,281 @@ fn old_words(len: usize, n_random: usize, rng: &mut Rng) -> Vec<Vec<u8>> {
     v
 }
 
+
+/// random partition of a `len`-byte register into disjoint fields (raw lsb, raw msb, Bit form, signed)
+fn gen_partition(rng: &mut Rng, len: u64, be: bool) -> Vec<(u64, u64, bool, bool)> {
+    let bits = 8 * len;
+    let mut out = vec![];
+    let mut pos = 0u64;
+    while pos < bits {
+        if rng.chance(1, 4) {
+            pos += rng.below(4);
+            if pos >= bits {
+                break;
+            }
+        }
+        let maxw = bits - pos;
+        let w = match rng.below(5) {
+            0 => 1,
+            1 => 1 + rng.below(maxw.min(8)),
+            2 => 1 + rng.below(maxw.min(16)),
+            3 => maxw,
+            _ => 1 + rng.below(maxw),
+        };
+        let (l, m) = (pos, pos + w - 1);
+        let (lsb, msb) = if be { (bits - 1 - l, bits - 1 - m) } else { (l, m) };
+        out.push((lsb, msb, w == 1 && rng.bool(), rng.bool()));
+        pos += w;
+    }
+    if out.is_empty() {
+        out.push((if be { bits - 1 } else { 0 }, if be { bits - 1 } else { 0 }, false, false));
+    }
+    out
+}
+
+// ---------- second pass: sibling fields with CACHING ON ----------
+// The statement's quantifier: "with caching on, siblings are declared as each other's
+// invalidators".  Built with the DEFAULT cache store; every field lists its siblings as
+// <pInvalidator>.  Implementation-only oracles (no model: the cache layer is C04's model):
+// after any interleaving of reads and writes every field reads its last accepted value, the
+// DEVICE word holds every field's expected value, bits outside written fields and bytes
+// outside the register are the initial ones.
+
+#[derive(Clone, Debug)]
+struct CField {
+    lsb: u64,
+    msb: u64,
+    bit_form: bool,
+    signed: bool,
+}
+
+#[derive(Clone, Debug)]
+struct CGroup {
+    len: usize,
+    be: bool,
+    addr: i64,
+    /// StructReg entries (true) or separate MaskedIntReg nodes sharing the address (false)
+    struct_form: bool,
+    /// "" (default = WriteThrough), "WriteThrough" or "WriteAround"
+    cachable: String,
+    fields: Vec<CField>,
+}
+
+#[derive(Clone, Debug)]
+enum COp {
+    Read(usize),
+    Write(usize, i64),
+}
+
+impl CGroup {
+    fn norm(&self, f: &CField) -> (u32, u32) {
+        let bits = 8 * self.len as u64;
+        let (l, m) = if self.be { (bits - 1 - f.lsb, bits - 1 - f.msb) } else { (f.lsb, f.msb) };
+        (l as u32, m as u32)
+    }
+    fn xml(&self) -> String {
+        let e = if self.be { "BigEndian" } else { "LittleEndian" };
+        let cach = if self.cachable.is_empty() { String::new() } else { format!("<Cachable>{}</Cachable>", self.cachable) };
+        let mask = |f: &CField| if f.bit_form { format!("<Bit>{}</Bit>", f.lsb) } else { format!("<LSB>{}</LSB><MSB>{}</MSB>", f.lsb, f.msb) };
+        let inval = |j: usize| -> String { (0..self.fields.len()).filter(|k| *k != j).map(|k| format!("<pInvalidator>F{k}</pInvalidator>")).collect() };
+        let mut x = String::from(XML_HEAD);
+        if self.struct_form {
+            x += &format!("<StructReg Comment=\"shared\"><Address>{}</Address><Length>{}</Length><AccessMode>RW</AccessMode><pPort>Device</pPort>{cach}<Endianess>{e}</Endianess>\n", self.addr, self.len);
+            for (j, f) in self.fields.iter().enumerate() {
+                x += &format!("  <StructEntry Name=\"F{j}\">{}<AccessMode>RW</AccessMode>{}<Sign>{}</Sign></StructEntry>\n",
+                    inval(j), mask(f), if f.signed { "Signed" } else { "Unsigned" });
+            }
+            x += "</StructReg>\n";
+        } else {
+            for (j, f) in self.fields.iter().enumerate() {
+                x += &format!("<MaskedIntReg Name=\"F{j}\"><Address>{}</Address><Length>{}</Length><AccessMode>RW</AccessMode><pPort>Device</pPort>{cach}{}{}<Sign>{}</Sign><Endianess>{e}</Endianess></MaskedIntReg>\n",
+                    self.addr, self.len, inval(j), mask(f), if f.signed { "Signed" } else { "Unsigned" });
+            }
+        }
+        x += XML_TAIL;
+        x
+    }
+    fn to_json(&self, reg0: &[u8], ops: &[COp]) -> Value {
+        json!({"cached": {
+            "len": self.len, "be": self.be, "addr": self.addr.to_string(), "struct_form": self.struct_form, "cachable": self.cachable,
+            "fields": self.fields.iter().map(|f| json!({"lsb": f.lsb, "msb": f.msb, "bit_form": f.bit_form, "signed": f.signed})).collect::<Vec<_>>(),
+            "reg0": hex(reg0),
+            "ops": ops.iter().map(|o| match o { COp::Read(j) => json!(["r", j, "0"]), COp::Write(j, v) => json!(["w", j, v.to_string()]) }).collect::<Vec<_>>(),
+        }})
+    }
+    fn from_json(v: &Value) -> (CGroup, Vec<u8>, Vec<COp>) {
+        let c = &v["cached"];
+        let g = CGroup {
+            len: c["len"].as_u64().unwrap() as usize,
+            be: c["be"].as_bool().unwrap(),
+            addr: c["addr"].as_str().unwrap().parse().unwrap(),
+            struct_form: c["struct_form"].as_bool().unwrap(),
+            cachable: c["cachable"].as_str().unwrap().to_string(),
+            fields: c["fields"].as_array().unwrap().iter().map(|f| CField {
+                lsb: f["lsb"].as_u64().unwrap(), msb: f["msb"].as_u64().unwrap(),
+                bit_form: f["bit_form"].as_bool().unwrap(), signed: f["signed"].as_bool().unwrap() }).collect(),
+        };
+        let ops = c["ops"].as_array().unwrap().iter().map(|o| {
+            let j = o[1].as_u64().unwrap() as usize;
+            if o[0] == "r" { COp::Read(j) } else { COp::Write(j, o[2].as_str().unwrap().parse().unwrap()) }
+        }).collect();
+        (g, unhex(c["reg0"].as_str().unwrap()), ops)
+    }
+}
+
+/// Run one history on one cached sibling group; returns false when a violation was reported.
+fn run_cached_group(rep: &mut Report, g: &CGroup, reg0: &[u8], ops: &[COp], src: &str) -> bool {
+    let xml = g.xml();
+    let (_, store, mut cx) = GenApiBuilder::<DefaultNodeStore>::default().build(&xml).expect("generated XML parses");
+    let ids: Vec<NodeId> = (0..g.fields.len()).map(|j| store.id_by_name(format!("F{j}")).expect("node present")).collect();
+    let mut img = vec![0x11u8; PAD];
+    img.extend_from_slice(reg0);
+    img.extend(vec![0x22u8; PAD]);
+    let mut dev = RecDevice::new(g.addr - PAD as i64, img.clone(), vec![]);
+    let initial = word_of(reg0, g.be);
+    let mut last: Vec<Option<i64>> = vec![None; g.fields.len()];
+    let form = if g.struct_form { "struct-entries" } else { "masked-sharing-address" };
+    let sig = |kind: &str, f: &CField| {
+        let (l, m) = g.norm(f);
+        json!({"kind": kind, "cached": true, "form": form, "cachable": g.cachable, "len": g.len, "be": g.be, "signed": f.signed, "width": m - l + 1})
+    };
+    for (step, op) in ops.iter().enumerate() {
+        let (j, write) = match op { COp::Read(j) => (*j, None), COp::Write(j, v) => (*j, Some(*v)) };
+        let f = &g.fields[j];
+        let (l, m) = g.norm(f);
+        let (emin, emax) = exp_range(m - l + 1, f.signed);
+        let nid = ids[j];
+        let before_writes = dev.writes();
+        let reg_before = dev.img[PAD..PAD + g.len].to_vec();
+        let out = {
+            let (store, cx, dev) = (&store, &mut cx, &mut dev);
+            match catch(|| -> Result<Out, cameleon_genapi::GenApiError> {
+                let node = nid.expect_iinteger_kind(store)?;
+                Ok(match write {
+                    None => Out::Int(node.value(dev, store, cx)?),
+                    Some(v) => { node.set_value(v, dev, store, cx)?; Out::Unit }
+                })
+            }) { Err(()) => Out::Panic, Ok(Err(e)) => Out::Err(err_name(&e)), Ok(Ok(o)) => o }
+        };
+        let canon = format!("cached {form} {} {} {} {:?} step{step} {:?} {}", g.len, g.be, g.cachable, g.fields, op, hex(&reg_before));
+        rep.case(&canon, !matches!(out, Out::Err(_) | Out::Panic));
+        rep.count(&format!("cached/{form}/{}", if write.is_some() { "set" } else { "value" }));
+        rep.count(&format!("cached/cachable-{}", if g.cachable.is_empty() { "default" } else { &g.cachable }));
+        let expected = |jj: usize, last: &Vec<Option<i64>>| -> i64 {
+            let ff = &g.fields[jj];
+            let (lo, mo) = g.norm(ff);
+            last[jj].unwrap_or_else(|| exp_value(initial, lo, mo - lo + 1, ff.signed))
+        };
+        let mut bad: Option<(&str, String)> = None;
+        if out == Out::Panic {
+            bad = Some(("panic", format!("step {step} {:?} panicked", op)));
+        } else {
+            match write {
+                None => {
+                    let e = expected(j, &last);
+                    if out != Out::Int(e) {
+                        bad = Some(("sibling-disturbed", format!("step {step}: value() of field {l}..{m} = {:?}, expected {e} (caching on)", out)));
+                    }
+                }
+                Some(v) => {
+                    if v >= emin && v <= emax {
+                        if out != Out::Unit {
+                            bad = Some(("in-range-refused", format!("step {step}: set_value({v}) = {:?}", out)));
+                        } else {
+                            last[j] = Some(v);
+                        }
+                    } else if !matches!(out, Out::Err("InvalidData")) {
+                        bad = Some(("out-of-range-accepted", format!("step {step}: set_value({v}) = {:?}, range [{emin},{emax}]", out)));
+                    } else if dev.writes() != before_writes || dev.img[PAD..PAD + g.len] != reg_before[..] {
+                        bad = Some(("write-on-refusal", format!("step {step}: refused set_value({v}) wrote to the device")));
+                    }
+                }
+            }
+        }
+        if bad.is_none() {
+            // the DEVICE word (uncached view): every field holds its expected value
+            let cur = word_of(&dev.img[PAD..PAD + g.len], g.be);
+            for jj in 0..g.fields.len() {
+                let ff = &g.fields[jj];
+                let (lo, mo) = g.norm(ff);
+                let on_dev = exp_value(cur, lo, mo - lo + 1, ff.signed);
+                let e = expected(jj, &last);
+                if on_dev != e {
+                    bad = Some(("sibling-disturbed", format!("step {step} {:?}: on the device field {lo}..{mo} holds {on_dev}, expected {e} (a sibling's read-modify-write used a stale word?)", op)));
+                    break;
+                }
+            }
+            let mut written_mask: u128 = 0;
+            for jj in 0..g.fields.len() {
+                if last[jj].is_some() {
+                    let (lo, mo) = g.norm(&g.fields[jj]);
+                    written_mask |= ((1u128 << (mo - lo + 1)) - 1) << lo;
+                }
+            }
+            if bad.is_none() && (cur ^ initial) & !written_mask != 0 {
+                bad = Some(("history-bits-outside-written-fields-changed", format!("step {step}: register bits outside all written fields differ from the initial content")));
+            }
+            if bad.is_none() && (dev.img[..PAD] != img[..PAD] || dev.img[PAD + g.len..] != img[PAD + g.len..] || !dev.outside.is_empty()) {
+                bad = Some(("frame", format!("step {step}: bytes outside the register changed")));
+            }
+        }
+        if let Some((kind, what)) = bad {
+            rep.count(&format!("viol/cached/{kind}"));
+            rep.violation(sig(kind, f), &what, g.to_json(reg0, &ops[..=step]));
+            let _ = src;
+            return false;
+        }
+    }
+    true
+}
+
+fn cached_sibling_pass(rep: &mut Report, rng: &mut Rng, thorough: bool) {
+    let addrs: [i64; 4] = [0x200, 6, 0x7fff_ffff_ffff_f000, -32];
+    let n_groups = if thorough { 1500 } else { 300 };
+    for gi in 0..n_groups {
+        let len = *rng.pick(&[1u64, 2, 4, 8]);
+        let be = rng.bool();
+        let fields: Vec<CField> = gen_partition(rng, len, be).into_iter().map(|(lsb, msb, bit_form, signed)| CField { lsb, msb, bit_form, signed }).collect();
+        let g = CGroup {
+            len: len as usize, be, addr: addrs[gi % addrs.len()], struct_form: gi % 2 == 0,
+            cachable: ["", "WriteThrough", "", "WriteAround"][gi % 4].to_string(), fields,
+        };
+        let reg0 = if gi % 3 == 0 { vec![0xff; g.len] } else { rng.bytes(g.len) };
+        let steps = if thorough { 60 } else { 30 };
+        let mut ops = vec![];
+        for _ in 0..steps {
+            let j = rng.below(g.fields.len() as u64) as usize;
+            if rng.chance(1, 3) {
+                ops.push(COp::Read(j));
+            } else {
+                let (l, m) = g.norm(&g.fields[j]);
+                let (emin, emax) = exp_range(m - l + 1, g.fields[j].signed);
+                let v = match rng.below(7) {
+                    0 => emin,
+                    1 => emax,
+                    2 => emax.wrapping_add(1),
+                    _ => {
+                        let span = (emax as i128 - emin as i128 + 1) as u128;
+                        (emin as i128 + (rng.next_u64() as u128 % span) as i128) as i64
+                    }
+                };
+                ops.push(COp::Write(j, v));
+            }
+        }
+        run_cached_group(rep, &g, &reg0, &ops, "cached-siblings");
+    }
+    // the interleaving of the demo: fixed three-field 16-bit register, both forms, both byte orders
+    for struct_form in [true, false] {
+        for be in [false, true] {
+            let raw = |l: u64, m: u64| if be { (15 - l, 15 - m) } else { (l, m) };
+            let fields = [(0u64, 3u64), (4, 11), (12, 15)].iter().map(|&(l, m)| { let (lsb, msb) = raw(l, m); CField { lsb, msb, bit_form: false, signed: false } }).collect();
+            let g = CGroup { len: 2, be, addr: 0x200, struct_form, cachable: String::new(), fields };
+            let ops = vec![COp::Read(0), COp::Write(1, 0x5a), COp::Write(0, 3), COp::Read(1), COp::Write(2, 9), COp::Write(1, 1), COp::Read(0), COp::Read(2), COp::Write(0, 16), COp::Read(1)];
+            run_cached_group(rep, &g, &[0xc3, 0xa5], &ops, "cached-siblings-fixed");
+        }
+    }
+}
+
 fn main() {
     let args = parse_args();
     let mut rng = Rng::new(args.seed);
@@ -378,6 +658,12 @@ fn main() {
 
     // ----- replay / corpus -----
     fn replay_one(rp: &Value, rep: Report, camdrv: &str, rng: &mut Rng, src: &str) -> Report {
+        if rp.get("cached").is_some() {
+            let mut rep = rep;
+            let (g, reg0, ops) = CGroup::from_json(rp);
+            run_cached_group(&mut rep, &g, &reg0, &ops, src);
+            return rep;
+        }
         let sp = &rp["spec"];
         let spec = Spec {
             name: "Replay".into(),
@@ -389,6 +675,7 @@ fn main() {
             bit_form: sp["bit_form"].as_bool().unwrap(),
             addr: sp["addr"].as_str().unwrap().parse().unwrap(),
             group: if sp["struct_entry"].as_bool().unwrap() { Some(0) } else { None },
+            shared_masked: false,
         };
         let mut r = Runner { w: build(vec![spec.clone()]), rep, camdrv: camdrv.to_string() };
         let img = unhex(rp["img"].as_str().unwrap());
@@ -437,7 +724,7 @@ fn main() {
                     for signed in [false, true] {
                         k += 1;
                         let (lsb, msb) = if be { (bits - 1 - l, bits - 1 - m) } else { (l, m) };
-                        specs.push(Spec { name: format!("M{}", specs.len()), len, be, signed, lsb, msb, bit_form: false, addr: addrs[k % addrs.len()], group: None });
+                        specs.push(Spec { name: format!("M{}", specs.len()), len, be, signed, lsb, msb, bit_form: false, addr: addrs[k % addrs.len()], group: None, shared_masked: false });
                     }
                 }
             }
@@ -447,7 +734,7 @@ fn main() {
             for be in [false, true] {
                 for signed in [false, true] {
                     k += 1;
-                    specs.push(Spec { name: format!("M{}", specs.len()), len, be, signed, lsb: b, msb: b, bit_form: true, addr: addrs[k % addrs.len()], group: None });
+                    specs.push(Spec { name: format!("M{}", specs.len()), len, be, signed, lsb: b, msb: b, bit_form: true, addr: addrs[k % addrs.len()], group: None, shared_masked: false });
                 }
             }
         }
@@ -462,7 +749,7 @@ fn main() {
         for be in [false, true] {
             for signed in [false, true] {
                 k += 1;
-                specs.push(Spec { name: format!("M{}", specs.len()), len, be, signed, lsb, msb, bit_form: bit, addr: addrs[k % addrs.len()], group: None });
+                specs.push(Spec { name: format!("M{}", specs.len()), len, be, signed, lsb, msb, bit_form: bit, addr: addrs[k % addrs.len()], group: None, shared_masked: false });
             }
         }
     }
@@ -472,33 +759,13 @@ fn main() {
     let n_groups = if thorough { 1500 } else { 300 };
     for g in 0..n_groups {
         let len = *rng.pick(&[1i64, 2, 4, 8]);
-        let bits = 8 * len as u64;
         let be = rng.bool();
         let addr = addrs[g % addrs.len()];
+        let shared_masked = g % 2 == 1;
         let mut members = vec![];
-        let mut pos = 0u64;
-        while pos < bits {
-            // optional gap
-            if rng.chance(1, 4) {
-                pos += rng.below(4);
-                if pos >= bits {
-                    break;
-                }
-            }
-            let maxw = bits - pos;
-            let w = match rng.below(5) {
-                0 => 1,
-                1 => 1 + rng.below(maxw.min(8)),
-                2 => 1 + rng.below(maxw.min(16)),
-                3 => maxw,
-                _ => 1 + rng.below(maxw),
-            };
-            let (l, m) = (pos, pos + w - 1);
-            let (lsb, msb) = if be { (bits - 1 - l, bits - 1 - m) } else { (l, m) };
-            let bit_form = w == 1 && rng.bool();
+        for (lsb, msb, bit_form, signed) in gen_partition(&mut rng, len as u64, be) {
             members.push(specs.len());
-            specs.push(Spec { name: format!("E{}_{}", g, members.len()), len, be, signed: rng.bool(), lsb, msb, bit_form, addr, group: Some(g) });
-            pos += w;
+            specs.push(Spec { name: format!("E{}_{}", g, members.len()), len, be, signed, lsb, msb, bit_form, addr, group: Some(g), shared_masked });
         }
         groups.push(members);
     }
@@ -605,7 +872,7 @@ fn main() {
                     r.rep.violation(
                         Runner::sig(&so, "sibling-disturbed"),
                         &format!("after set_value({v}) on sibling bits {l}..{m}: field {lo}..{mo} reads {:?}, expected {expect}", got),
-                        json!({"spec": {"len": so.len, "be": so.be, "signed": so.signed, "lsb": so.lsb.to_string(), "msb": so.msb.to_string(), "bit_form": so.bit_form, "addr": so.addr.to_string(), "struct_entry": true},
+                        json!({"spec": {"len": so.len, "be": so.be, "signed": so.signed, "lsb": so.lsb.to_string(), "msb": so.msb.to_string(), "bit_form": so.bit_form, "addr": so.addr.to_string(), "struct_entry": !so.shared_masked},
                                "op": "value", "arg": "-", "img": hex(&dev.img)}),
                     );
                 }
@@ -621,11 +888,13 @@ fn main() {
             }
             if (cur ^ initial) & !written_mask != 0 {
                 r.rep.violation(Runner::sig(&s, "history-bits-outside-written-fields-changed"), "register bits outside all written fields differ from the initial content",
-                    json!({"spec": {"len": s.len, "be": s.be, "signed": s.signed, "lsb": s.lsb.to_string(), "msb": s.msb.to_string(), "bit_form": s.bit_form, "addr": s.addr.to_string(), "struct_entry": true},
+                    json!({"spec": {"len": s.len, "be": s.be, "signed": s.signed, "lsb": s.lsb.to_string(), "msb": s.msb.to_string(), "bit_form": s.bit_form, "addr": s.addr.to_string(), "struct_entry": !s.shared_masked},
                            "op": "set", "arg": v.to_string(), "img": hex(&dev.img)}));
             }
         }
     }
+
+    cached_sibling_pass(&mut r.rep, &mut rng, thorough);
 
     r.rep.write(&args);
 }
